@@ -254,7 +254,13 @@ func VTMRestart(K int) {
 	tm2 := NewTargetsManager(dir, prometheus.NewRegistry(), vLogger())
 	zzv.Assert("C09.restart.load", tm2.Load() == nil)
 	after := tm2.TargetsInfo()
-	vAssertResumed("C09.restart", K, after, acked, ackedIdle)
+	// resuming the acknowledged assignment and idle instant is C09's subject and, for the idle
+	// instant and the rebuilt status, also C10's: the label follows the property being checked
+	lbl := "C09.restart"
+	if !zzv.Prop("C09") {
+		lbl = "C10.restart"
+	}
+	vAssertResumed(lbl, K, after, acked, ackedIdle)
 	// C10: the idle-since instant survives the restart (and is cleared when targets are assigned)
 	if len(acked) == 0 {
 		zzv.Cover("restart.idle")
@@ -268,7 +274,7 @@ func VTMRestart(K int) {
 	tm3 := NewTargetsManager(dir, prometheus.NewRegistry(), vLogger())
 	zzv.Assert("C09.restart2.load", tm3.Load() == nil)
 	again := tm3.TargetsInfo()
-	vAssertResumed("C09.restart2", K, again, acked, ackedIdle)
+	vAssertResumed(lbl+"2", K, again, acked, ackedIdle)
 	if len(acked) == 0 {
 		zzv.Assert("C10.restart2.idle.kept", again.IdleAt != nil && ackedIdle != nil && zzv.TimeNs(*again.IdleAt) == zzv.TimeNs(*ackedIdle))
 	}
